@@ -77,6 +77,10 @@ def prepare(desc, out):
     if desc["crystal"].get("pseudo"):
         out.cls("metric-pseudo-symmetry")
     c.at = gx.make_atoms(c.cell, c.pos, c.nums)
+    if int(dhash(desc), 16) % 4 == 1:
+        from vlib.gen import cells as gc
+        gc.attach_payload(c.at, int(dhash(desc), 16) % (2 ** 32))      # constraints / tags / magmoms are not part of the crystal
+        out.cls("payload:constraints+tags+magmoms")
     c.sg = int(c.ds.number)
     out.cls(*gx.pres_labels(desc["pres"]))
     out.cls("intended-group" if c.sg == desc["crystal"]["sg"] else "promoted")
